@@ -35,6 +35,9 @@ fragment H on Q { q2: b(x: 3, l: $l) }",
 fragment K on Q { s o { ... @defer(label: \"L3\") { c } } }
 mutation DM { m(x: 1) }
 subscription DS($b: Boolean!) { o { a ... @defer(if: $b) { c } ... @defer(if: false, label: \"L4\") { n(x: 1) } ... @skip(if: $b) { ... @defer { c } } } }",
+    "query VA($v: Int) { ...V b(x: 1, e: A) } query VB($v: Int = 2) { ...V ...W }
+fragment V on Q { k1: b(x: 1, y: {r: 1, d: $v, n: {r: 2, d: $v}}) o { n(x: $v) } ...W }
+fragment W on Q { k2: b(x: 2, l: [$v, 1]) s @include(if: true) @dq(x: $v) }",
 ];
 
 fn value_abs(v: &ast::Value) -> J {
